@@ -385,10 +385,14 @@ class ErrDiscipline:
         return [("unknown", "Result used by `%s`" % k)]
 
     def _consume_local(self, fn, b, depth):
-        out = []
-        for u in uses_of(fn, b):
-            out.extend(self.consume(fn, u, depth - 1))
-        return out or [("none", "Result bound and never inspected")]
+        """The Result sits in a local: each use inspects the same value, so one use that raises (or hands the Err on)
+        settles the Err path; the uses are alternatives."""
+        groups = [self.consume(fn, u, depth - 1) for u in uses_of(fn, b)]
+        if not groups:
+            return [("none", "Result bound and never inspected")]
+        if len(groups) == 1:
+            return groups[0]
+        return [("anyof", groups)]
 
     # ---- a boolean that tells "it was Err": does the raising branch follow? ----------------
     def flag_handled(self, fn, node, value, depth=6):
@@ -458,13 +462,18 @@ class ErrDiscipline:
             return (False, False)
         return (True, all(s["raising"] for s in st))
 
-    def classify(self, fn, call):
-        """-> (verdict, detail); verdict in raised-by-callee / raised / propagated / SWALLOWED / UNKNOWN"""
-        fallible, raising = self.callee_status(call)
-        outs = self.consume(fn, call)
-        returns_result = "Result<" in ((fn.sig or {}).get("out") or "")
+    def verdicts_of(self, fn, outs, returns_result):
         verdicts = []
         for o in outs:
+            if o[0] == "anyof":
+                alts = [self.verdicts_of(fn, g, returns_result) for g in o[1]]
+                good = [a for a in alts if a and all(v in ("raised", "propagated") for v, _ in a)]
+                if good:
+                    verdicts.extend(good[0])
+                else:
+                    for a in alts:
+                        verdicts.extend(a)
+                continue
             if o[0] == "region":
                 reg = o[1]
                 if self.must_raise(fn, reg):
@@ -500,6 +509,14 @@ class ErrDiscipline:
                 verdicts.append(("SWALLOWED", o[1]))
             else:
                 verdicts.append(("UNKNOWN", o[1]))
+        return verdicts
+
+    def classify(self, fn, call):
+        """-> (verdict, detail); verdict in raised-by-callee / raised / propagated / SWALLOWED / UNKNOWN"""
+        fallible, raising = self.callee_status(call)
+        outs = self.consume(fn, call)
+        returns_result = "Result<" in ((fn.sig or {}).get("out") or "")
+        verdicts = self.verdicts_of(fn, outs, returns_result)
         return fallible, raising, verdicts
 
     # ---- summaries: which functions can return an evaluation Err, and do they raise first -----
@@ -527,7 +544,7 @@ class ErrDiscipline:
                     fallible, raising, verdicts = self.classify(g, c)
                     if not fallible:
                         continue
-                    for o in self.consume(g, c):
+                    for o in flat_outcomes(self.consume(g, c)):
                         if o[0] == "region":
                             regions.append(o[1])
                     for v, _d in verdicts:
@@ -732,12 +749,13 @@ def run(ctx):
                 continue
             for k_, c in enumerate(g.calls(DM + "execute_condition")):
                 n += 1
-                outs = disc.consume(g, c)
+                outs = flat_outcomes(disc.consume(g, c))
                 vals = []
                 for o in outs:
                     if o[0] == "region":
                         t = tail_of(o[1])
-                        vals.append(const_eval(t) if t.get("k") == "lit" else describe(t))
+                        v = const_bool(F, t)
+                        vals.append(v if v is not None else describe(t))
                     elif o[0] == "none" and "unwrap_or_default" in o[1]:
                         vals.append(False)
                     else:
@@ -985,6 +1003,35 @@ def run(ctx):
 # ------------------------------------------------------------------------------------------------
 # helpers used by R08.4 (and by C09, which re-implements the same query on all Expression impls)
 # ------------------------------------------------------------------------------------------------
+
+def flat_outcomes(outs):
+    out = []
+    for o in outs:
+        if o[0] == "anyof":
+            for g in o[1]:
+                out.extend(flat_outcomes(g))
+        else:
+            out.append(o)
+    return out
+
+
+def const_bool(F, e, depth=2):
+    """Boolean the expression always evaluates to: a literal, or a call of an in-crate helper all of whose results are
+    the same literal."""
+    e = peel(e, NO_T)
+    if e.get("k") == "lit":
+        v = const_eval(e)
+        return v if isinstance(v, bool) else None
+    if e.get("k") in ("call", "mcall") and e.get("p") and depth > 0:
+        g = F.fns.get(e["p"])
+        if g is None or g.hir is None or F.impls.get(e["p"]):
+            return None
+        outs = [tail_of(g.hir)] + [r["e"] for r in g.nodes("ret") if "e" in r and hirq.enclosing_closure(g, r) is None]
+        vals = {const_bool(F, o, depth - 1) for o in outs}
+        if len(vals) == 1 and None not in vals:
+            return vals.pop()
+    return None
+
 
 def strip_generics_(p):
     from facts import strip_generics
